@@ -24,7 +24,7 @@ import (
 // state, sessions cannot race with one another and each computes what it
 // computes alone.  Natively 8 goroutines run the same operations under the
 // race detector.
-// cover: started, resumed, restored, context-walked
+// cover: inspected, started, resumed, restored, context-walked
 func verifSpareContacts() []*flows.ContactReference {
 	refs := make([]*flows.ContactReference, 3, 4)
 	for k := range refs {
@@ -71,6 +71,7 @@ func VerifC09_SharedAssets() {
 	eng := verifEngine(10, 10)
 	zzverif.Freeze("session assets", sa)
 	zzverif.Freeze("engine", eng)
+	zzverif.FreezeGlobals()
 	lang := []string{"eng", "spa"}[zzverif.Choice("contact-language", 2)]
 	restart := zzverif.Choice("restart-at-wait", 2) == 1
 	text := []string{"red", "blue"}[zzverif.Choice("reply", 2)]
@@ -81,6 +82,10 @@ func VerifC09_SharedAssets() {
 		sess, _, err := eng.NewSession(sa, trig)
 		zzverif.Assert(err == nil && sess.Status() == flows.SessionStatusWaiting, "session did not start")
 		zzverif.Cover("started")
+		// flow inspection (reflection walk over the shared definition) from every session's goroutine
+		insp := f0.Inspect(sa)
+		zzverif.Assert(len(insp.Dependencies) > 0 && len(f0.ExtractTemplates()) > 0 && len(f0.ExtractLocalizables()) > 0, "inspection found nothing")
+		zzverif.Cover("inspected")
 		var out []string
 		verifWalkContext(sess.MergedEnvironment(), "@", sess.CurrentContext(), 2, &out)
 		zzverif.Cover("context-walked")
